@@ -258,3 +258,87 @@ func verifFlattenWitness(scope string) string {
 	}
 	return `{"@context": 42, "@id": "x"}`
 }
+
+// verifValueProfile quotes values of the document in its traces (numbers, strings, typed
+// literals), so that differences in how the two entry points carry values become visible.
+const verifValueProfile = `#%Validation Profile 1.0
+profile: Values
+prefixes:
+  ex: http://example.org/vocab#
+violation:
+  - num
+  - str
+  - cmp
+validations:
+  num:
+    message: "number {{ex.n}}"
+    targetClass: ex.C
+    propertyConstraints:
+      ex.n:
+        maxInclusive: 5
+  str:
+    message: "text {{ex.s}}"
+    targetClass: ex.C
+    propertyConstraints:
+      ex.s:
+        pattern: "^zzz$"
+        in: [zzz]
+  cmp:
+    message: m
+    targetClass: ex.C
+    propertyConstraints:
+      ex.n:
+        lessThanProperty: ex.m
+`
+
+var verifValueDocs = []string{
+	`{"@id": "http://x/a", "@type": "http://example.org/vocab#C", "http://example.org/vocab#n": 12.50, "http://example.org/vocab#m": 1.2E1, "http://example.org/vocab#s": "a\"b\\c\u00e9\n"}`,
+	`{"@id": "http://x/a", "@type": "http://example.org/vocab#C", "http://example.org/vocab#n": 9007199254740993, "http://example.org/vocab#m": 100, "http://example.org/vocab#s": "<&>"}`,
+	`{"@id": "http://x/a", "@type": "http://example.org/vocab#C", "http://example.org/vocab#n": {"@value": "7.0", "@type": "http://www.w3.org/2001/XMLSchema#decimal"}, "http://example.org/vocab#m": {"@value": "6", "@type": "http://www.w3.org/2001/XMLSchema#integer"}, "http://example.org/vocab#s": true}`,
+}
+
+// VerifC09EquivNative replays a VerifC09Equiv counterexample: with the recorded stage outcomes
+// provoked by witness documents and, for the all-stages-succeed case, over documents whose
+// values (numbers not in canonical form, escapes, typed literals) are quoted in the report.
+func VerifC09EquivNative() {
+	check := func(profileText, doc string) {
+		r1, e1, p1 := func() (r string, e error, p bool) {
+			defer func() {
+				if x := recover(); x != nil {
+					p = true
+				}
+			}()
+			r, e = ValidateWithConfiguration(profileText, doc, false, nil, c.TestValidationConfiguration{}, c.DefaultReportConfiguration())
+			return
+		}()
+		compiled, cerr := ProcessProfile(profileText, false, nil)
+		if cerr != nil {
+			v.Assert("C09.compile-error-eq", e1 != nil && !p1)
+			return
+		}
+		r2, e2, p2 := func() (r string, e error, p bool) {
+			defer func() {
+				if x := recover(); x != nil {
+					p = true
+				}
+			}()
+			r, e = ValidateCompiledWithConfiguration(compiled, doc, false, nil, c.TestValidationConfiguration{}, c.DefaultReportConfiguration())
+			return
+		}()
+		v.Assert("C09.compiled-eq-source.report", r1 == r2)
+		v.Assert("C09.compiled-eq-source.error", (e1 == nil) == (e2 == nil))
+		v.Assert("C09.compiled-eq-source.panic", p1 == p2)
+	}
+	if v.ReplayBool("flag:a.eval.err") || v.ReplayBool("flag:a.eval.empty") {
+		fmt.Println("VERIF_NOT_REPRODUCIBLE evaluation faults cannot be provoked from outside")
+		return
+	}
+	if d, ok := verifDocFor("a", ""); ok && d != "" {
+		check(verifProfile, d)
+		return
+	}
+	check(verifProfile, `{"@id": "http://x/a", "@type": "http://a.ml/vocabularies/apiContract#EndPoint"}`)
+	for _, d := range verifValueDocs {
+		check(verifValueProfile, d)
+	}
+}
